@@ -1,4 +1,5 @@
 """C14 - reading over HTTP gives the same bytes as reading the files locally."""
+import collections
 import json
 import os
 import shutil
@@ -221,6 +222,8 @@ PLAIN_FAULTS = ["404", "403", "500", "503", "close_before",
                 "close_after_headers"]
 RANGE_FAULTS = PLAIN_FAULTS + ["short_body", "long_200", "500_samelen",
                               "404_samelen", "500_samelen"]
+RANGE_ONLY = ("short_body", "long_200", "500_samelen", "404_samelen")
+ALL_FAULTS = PLAIN_FAULTS + list(RANGE_ONLY)
 
 
 @st.composite
@@ -253,35 +256,52 @@ def check_fault(ctx, case):
             if good != truth[pos]:
                 ctx.fail("fault-free fetch is already wrong")
             nreq = srv.count
-            log = srv.requests
+            log = list(srv.requests)
+
+            def inject(k, kind):
+                is_range = log[k][2] is not None
+                if kind in RANGE_ONLY and not is_range:
+                    return None
+                srv.reset_count()
+                srv.set_faults([httpd.Fault(k, kind)])
+                try:
+                    got = operation()
+                except Exception as exc:     # noqa
+                    if not is_sharded_kind(case) and not isinstance(
+                            exc, accessor.DataAccessError):
+                        ctx.fail("plain dataset: fault %s on request %d (%s "
+                                 "%s) surfaces as %s instead of "
+                                 "DataAccessError: %s" % (
+                                     kind, k, log[k][0], log[k][1],
+                                     type(exc).__name__, exc))
+                    return "raised"
+                finally:
+                    srv.set_faults([])
+                if got != truth[pos]:
+                    ctx.fail("fault %s on request %d of %d (%s %s, Range %s) "
+                             "made fetch_chunk return %d bytes that differ "
+                             "from the %d bytes stored (%s dataset, bits %s)"
+                             % (kind, k, nreq, log[k][0], log[k][1],
+                                log[k][2], len(got), len(truth[pos]),
+                                case["kind"], case["bits"]))
+                return "correct"
+
+            if case.get("all_faults"):
+                # fault enumeration: every request of the operation x every
+                # applicable fault kind
+                stats = collections.Counter()
+                for k in range(nreq):
+                    for kind in ALL_FAULTS:
+                        out = inject(k, kind)
+                        if out is not None:
+                            stats[out] += 1
+                            stats["fault." + kind] += 1
+                return nreq, stats
             k = case["fault_k"] % nreq
             kind = case["fault_kind"]
-            is_range = log[k][2] is not None
-            if kind in ("short_body", "long_200", "500_samelen",
-                        "404_samelen") and not is_range:
+            if kind in RANGE_ONLY and log[k][2] is None:
                 kind = PLAIN_FAULTS[case["fault_k"] % len(PLAIN_FAULTS)]
-            if kind == "404" and log[k][0] == "HEAD":
-                pass   # an ordinary negative answer of an existence probe
-            srv.reset_count()
-            srv.set_faults([httpd.Fault(k, kind)])
-            try:
-                got = operation()
-            except Exception as exc:     # noqa
-                if not is_sharded_kind(case) and not isinstance(
-                        exc, accessor.DataAccessError):
-                    ctx.fail("plain dataset: fault %s on request %d (%s %s) "
-                             "surfaces as %s instead of DataAccessError: %s"
-                             % (kind, k, log[k][0], log[k][1],
-                                type(exc).__name__, exc))
-                return k, kind, "raised"
-            if got != truth[pos]:
-                ctx.fail("fault %s on request %d of %d (%s %s, Range %s) made "
-                         "fetch_chunk return %d bytes that differ from the %d "
-                         "bytes stored (%s dataset, bits %s)" % (
-                             kind, k, nreq, log[k][0], log[k][1], log[k][2],
-                             len(got), len(truth[pos]), case["kind"],
-                             case["bits"]))
-            return k, kind, "correct"
+            return k, kind, inject(k, kind)
     finally:
         ctx.rmtree(root)
 
@@ -292,6 +312,28 @@ def run_fault(ctx, n):
         ctx.record(case, k > 0, ["kind." + case["kind"], "fault." + kind,
                                  outcome])
     ctx.run_hypothesis(fault_cases(), check, n)
+
+
+def run_fault_all(ctx, n):
+    @st.composite
+    def strat(draw):
+        c = draw(fault_cases())
+        c["all_faults"] = True
+        return c
+
+    def check(ctx, case):
+        nreq, stats = check_fault(ctx, case)
+        n_inj = stats["raised"] + stats["correct"]
+        ctx.evaluations += n_inj
+        for key, v in stats.items():
+            ctx.count(key, v)
+        for kind in ALL_FAULTS:
+            if stats["fault." + kind]:
+                ctx.nt.add(hash(("site", case["kind"], kind,
+                                 min(nreq, 8))))
+        ctx.record(case, nreq > 1, ["kind." + case["kind"],
+                                    "requests%02d" % min(nreq, 12)])
+    ctx.run_hypothesis(strat(), check, n)
 
 
 def replay(ctx, case):
@@ -306,4 +348,6 @@ SUBS = [
         min_per_shard=10),
     Sub("faults", run_fault, replay, quick=400, thorough=10000,
         min_per_shard=10),
+    Sub("faults_all", run_fault_all, replay, quick=60, thorough=1500,
+        min_per_shard=5),
 ]
